@@ -15,6 +15,8 @@ def mk_ballot(jb):
     kw = {}
     if jb.get("r"):
         kw["ranking"] = tuple(frozenset(g) for g in jb["r"])
+    elif jb.get("empty_tuple"):
+        kw["ranking"] = ()            # an explicitly empty ranking: same content as no ranking at all
     if jb.get("s"):
         kw["scores"] = {c: frac(v) for c, v in jb["s"].items()}
     if jb.get("id") is not None:
